@@ -273,6 +273,30 @@ def run_impl(case):
         return out
     out["lot"] = _fl(res[0])
     out["w"] = _fl(w)
+    # the same distribution followed, in the same call, by an almost identical one (same support, weights changed
+    # by a few parts per million): each row's plan must be the plan of its own marginal, so the second row must
+    # come out exactly as when it is passed alone
+    try:
+        rs = np.random.RandomState(case.get("pseed", 0))
+        w2 = w * (1.0 + 3e-6 * rs.choice([-1.0, 1.0], size=n))
+        if case["path"] == "sparse":
+            both = kern(np.array([0, n, 2 * n], dtype=np.int32), np.tile(np.arange(n, dtype=np.int32), 2),
+                        np.concatenate([w, w2]), X, R, q, metric=metric, max_distribution_size=256, chunk_size=256,
+                        spherical_vectors=False)
+            alone = kern(np.array([0, n], dtype=np.int32), np.arange(n, dtype=np.int32), w2.copy(), X, R, q,
+                         metric=metric, max_distribution_size=256, chunk_size=256, spherical_vectors=False)
+        else:
+            import numba
+            vs2 = numba.typed.List.empty_list(numba.float64[:, :]); ds2 = numba.typed.List.empty_list(numba.float64[:])
+            vs2.append(np.ascontiguousarray(X)); ds2.append(w.copy()); vs2.append(np.ascontiguousarray(X)); ds2.append(w2.copy())
+            both = kern(vs2, ds2, R, q, metric=metric, max_distribution_size=256, chunk_size=256, spherical_vectors=False)
+            vs3 = numba.typed.List.empty_list(numba.float64[:, :]); ds3 = numba.typed.List.empty_list(numba.float64[:])
+            vs3.append(np.ascontiguousarray(X)); ds3.append(w2.copy())
+            alone = kern(vs3, ds3, R, q, metric=metric, max_distribution_size=256, chunk_size=256, spherical_vectors=False)
+        out["neighbour_diff"] = float(np.max(np.abs(np.asarray(both[1]) - np.asarray(alone[0])))) if n else 0.0
+        out["first_row_diff"] = float(np.max(np.abs(np.asarray(both[0]) - np.asarray(res[0])))) if n else 0.0
+    except Exception as e:
+        out["neighbour_exc"] = f"{type(e).__name__}: {e}"
     # what the kernel hands to transport_plan, observed through the interpreted twin of the same function
     rec = []
     orig = lot.transport_plan
@@ -555,6 +579,13 @@ def oracle(case, outs):
             fails.append(_fail(f"ot.lot.images-not-optimal.{'sample>ref' if n > r else 'sample<=ref'}",
                                f"{case['path']} kernel, {case['metric']}: images of the kernel differ from the barycentric "
                                f"projection of the (unique) LP-optimal plan for cost d(x_i, r_j) by {err:.3e}"))
+    if "neighbour_exc" in o:
+        fails.append(_fail("ot.lot.two-rows-raise", f"{case['path']} kernel on two rows raises {o['neighbour_exc']}"))
+    elif o.get("neighbour_diff", 0.0) > 1e-10 or o.get("first_row_diff", 0.0) > 1e-10:
+        fails.append(_fail("ot.lot.row-depends-on-neighbour",
+                           f"{case['path']} kernel, {case['metric']}: a row differs by {o.get('neighbour_diff'):.3e} from the same "
+                           f"row passed alone when it follows a distribution with the same support and weights within 3e-6 "
+                           f"(first row changes by {o.get('first_row_diff'):.3e}): the plan used is not the coupling of this row's marginal"))
     return fails
 
 
